@@ -129,6 +129,8 @@ def sv(v):
         return ObjView(v)
     if isinstance(v, PyList):
         return ListView(v)
+    if isinstance(v, Seq):
+        return ListView(PyList(v))
     if isinstance(v, Opaque):
         return OpaqueView(v)
     if isinstance(v, IntMap):
@@ -199,6 +201,14 @@ class ListView:
 
     def raw(self):
         return self._l
+
+    @property
+    def key(self):
+        """identity of a symbolic list value (fresh lists carry one): lets a contract say 'a function of this list'"""
+        v = self._l.v
+        if isinstance(v, Seq) and v.tag and v.tag[0] == "key":
+            return v.tag[1]
+        raise VCError("spec: this list value has no identity key")
 
 
 class MapView:
